@@ -75,7 +75,12 @@ def run(name, tier="quick", props=None):
     assert rc == 0, "patch does not apply: " + out
     try:
         for prop in (props or [meta["property"]]):
+            ev = os.path.join(VERIF, "evidence", f"{prop}.json")
+            saved = open(ev).read() if os.path.exists(ev) else None
             rc, out = sh(f"./check {prop} {tier}", cwd=VERIF, timeout=3600)
+            # the evidence file belongs to runs on the unchanged tree: put it back
+            if saved is not None:
+                open(ev, "w").write(saved)
             lines = [l for l in out.splitlines() if l.startswith(("VIOLATION", "UNDECIDED", "OK", "KNOWN-FINDING", "  failed obligation"))]
             verdict = "detected" if rc == 1 and any(l.startswith("VIOLATION") for l in lines) else ("undecided" if rc == 2 else "missed")
             meta["checks"][f"{prop}:{tier}"] = {"exit": rc, "verdict": verdict, "lines": lines[:12]}
